@@ -48,6 +48,34 @@ theorem mergeFieldSets_keys_perm' {c : LitCfg} {e : EqEnv} {sets₁ sets₂ : Li
   · rw [mergeFieldSets_keys h₁]; exact nodup_dedupStr _
   · rw [mergeFieldSets_keys h₂]; exact nodup_dedupStr _
 
+/-- the same sample values, in any order and with any repetition -/
+def SameSamples (s₁ s₂ : List Json) : Prop := ∀ v, v ∈ s₁ ↔ v ∈ s₂
+
+theorem sameSets_of_sameSamples {cfg : GenCfg} {o : GenOracles} {s₁ s₂ : List Json} {sets₁ sets₂ : List Fields}
+    (hs : SameSamples s₁ s₂) (h₁ : s₁.mapM (convert cfg o) = .ok sets₁)
+    (h₂ : s₂.mapM (convert cfg o) = .ok sets₂) : SameSets sets₁ sets₂ := by
+  intro fs
+  constructor
+  · intro hfs
+    obtain ⟨v, hv, hc⟩ := mapM_ok_mem h₁ hfs
+    obtain ⟨fs', hfs', hc'⟩ := mapM_ok_mem_left h₂ ((hs v).1 hv)
+    rw [hc] at hc'; cases hc'; exact hfs'
+  · intro hfs
+    obtain ⟨v, hv, hc⟩ := mapM_ok_mem h₂ hfs
+    obtain ⟨fs', hfs', hc'⟩ := mapM_ok_mem_left h₁ ((hs v).2 hv)
+    rw [hc] at hc'; cases hc'; exact hfs'
+
+/-- **C07.1 at the level of `generate`**: the root model's key set does not depend on the order or
+    repetition of the samples. -/
+theorem generate_keys_perm {cfg : GenCfg} {o : GenOracles} {s₁ s₂ : List Json} {t₁ t₂ : Ty}
+    (hs : SameSamples s₁ s₂) (h₁ : generate cfg o s₁ = .ok t₁) (h₂ : generate cfg o s₂ = .ok t₂) :
+    ∃ fs₁ fs₂, t₁ = .obj fs₁ ∧ t₂ = .obj fs₂ ∧ ∀ k, k ∈ Fields.keys fs₁ ↔ k ∈ Fields.keys fs₂ := by
+  obtain ⟨sets₁, f₁, fs₁, hm₁, hg₁, rfl, hk₁⟩ := generate_ok h₁
+  obtain ⟨sets₂, f₂, fs₂, hm₂, hg₂, rfl, hk₂⟩ := generate_ok h₂
+  refine ⟨fs₁, fs₂, rfl, rfl, fun k => ?_⟩
+  rw [hk₁, hk₂]
+  exact mergeFieldSets_keys_perm (sameSets_of_sameSamples hs hm₁ hm₂) hg₁ hg₂ k
+
 def cEx : LitCfg := ⟨10, 50⟩
 def eEx : EqEnv := ⟨StrOracle.default, fun i => "Model#" ++ i, fun _ => none, 5⟩
 
